@@ -757,8 +757,10 @@ func (e *Engine) MessageReceived(ctx context.Context, p peer.ID, m bsmsg.BitSwap
 	if m.Full() {
 		// A full wantlist replaces everything the peer asked for before, so
 		// the tasks still queued for the old wants must not be served.
-		for _, w := range e.peerLedger.WantlistForPeer(p) {
-			e.peerRequestQueue.Remove(w.Cid, p)
+		if topics := e.peerRequestQueue.PeerTopics(p); topics != nil {
+			for _, topic := range topics.Pending {
+				e.peerRequestQueue.Remove(topic, p)
+			}
 		}
 		e.peerLedger.ClearPeerWantlist(p)
 	}
@@ -780,9 +782,11 @@ func (e *Engine) MessageReceived(ctx context.Context, p peer.ID, m bsmsg.BitSwap
 	for _, entry := range cancels {
 		c := entry.Cid
 		log.Debugw("Bitswap engine <- cancel", "local", e.self, "from", p, "cid", c)
-		if e.peerLedger.CancelWant(p, c) {
-			e.peerRequestQueue.Remove(c, p)
-		}
+		// Remove the queued task even when the ledger no longer lists the
+		// want (MessageSent drops ledger entries of answered wants while an
+		// upgraded task for the same CID may still be queued).
+		e.peerLedger.CancelWant(p, c)
+		e.peerRequestQueue.Remove(c, p)
 	}
 
 	e.lock.Unlock()
